@@ -1,6 +1,7 @@
 package sim
 
 import (
+	"runtime"
 	"context"
 	"encoding/json"
 	"errors"
@@ -83,6 +84,7 @@ const (
 	FCancelCtx   = "cancel_ctx"         // resolver cancels the request context (then returns normally)
 	FBlockCancel = "block_until_cancel" // resolver waits for the request context to be done, then fails with its error
 	FHostileVars = "hostile_vars"       // resolver overwrites the entries of Info.VariableValues
+	FGoexit      = "goexit"             // resolver ends its goroutine with runtime.Goexit (t.FailNow in a resolver)
 	FObserveCtx  = "observe"            // resolver returns ctx.Err() if the context is done
 )
 
@@ -729,6 +731,8 @@ func (w *World) resolverInner(coord string) graphql.FieldResolveFn {
 			fe := gqlerrors.FormatError(inner)
 			fe.Path = []interface{}{"inner", "leaf"}
 			return nil, fe
+		case FGoexit:
+			runtime.Goexit()
 		case FSentinelErr:
 			return nil, sentinelError
 		case FSharedErr:
